@@ -4,11 +4,19 @@ Each `Driver/<X>.lean` provides `step<X> : String → List String → Option Str
 (`none` = not my op); add the import and the entry in `steppers`.
 -/
 import Driver.Headers
+import Driver.Registry
+import Driver.OutBuf
+import Driver.Processor
+import Driver.ContextHeap
+import Driver.Context
+import Driver.Middleware
+import Driver.Adapter
+import Driver.Audit
 
 open Driver
 
 def steppers : List (String → List String → Option String) :=
-  [stepHeaders]
+  [stepHeaders, stepRegistry, stepOutBuf, stepProcessor, stepContext, stepContextHeap, stepMiddleware, stepAdapter, stepAudit]
 
 def step (line : String) : String :=
   match (line.splitOn " ").filter (· ≠ "") with
